@@ -88,7 +88,13 @@ class Report:
         self.violations.append(rec)
 
     def unproved_item(self, rid, what):
+        """an obligation that was examined but neither discharged nor refuted
+        (proof lost): counted for the instance floor, never an alarm"""
         self.unproved.append("%s: %s" % (rid, what))
+        self.rules.setdefault(rid, {"desc": "", "instances": 0, "violations": 0})
+        self.rules[rid]["instances"] += 1
+        self.rules[rid]["unproved"] = self.rules[rid].get("unproved", 0) + 1
+        self.obligations += 1
 
     def floor(self, rid, minimum, what=""):
         """Anchor check: rule rid must have examined at least `minimum`
